@@ -103,6 +103,18 @@ prop("C06", True, "model_checking",
      "Trusted: the public parse_* functions' Ok/Err as the definition of 'rejected'; Debug form of Beatmap as the complete result; Debug snapshot of HitObjectsState (verif hook) as state key.",
      "DESIGN.md 3/C06", E1)
 
+prop("C01", True, "model_checking",
+     "exhaustive enumeration of bounded input families x nine decoder types (+ re-encode, second decode) in a supervised child process; default and tracing feature builds",
+     "Every input of the stated finite families (all byte strings up to length 4/5 over a 21-byte alphabet, hostile field deviations per record x mode x version, every truncation in four encodings, every single-byte substitution, line/field mutations, splices, record pairs) is decoded by all nine decoder types, re-encoded and decoded again; panics are caught, aborts and non-termination are attributed to a case by a supervising parent; the same body runs against the tracing build with a formatting subscriber.",
+     "Trusted: overflow checks + debug assertions in the subject build stand in for memory-safety detection in the quick tier; totality outside the families is not claimed.",
+     "DESIGN.md 3/C01", E1)
+
+prop("C07", True, "model_checking",
+     "exhaustive enumeration of the C01 input families; differential comparison of every specialised decoder with the full decoder",
+     "For every input of the C01 families each of the eight specialised decoders is run and every field it shares with Beatmap is compared (Debug form, NaN-safe).",
+     "Trusted: the field lists of the comparison; inputs outside the families.",
+     "DESIGN.md 3/C07", E1)
+
 NOT_BUILT_REASON = "check not built yet in this session (planned, see DESIGN.md section 3); not claimed until it exists"
 
 def main():
